@@ -1150,3 +1150,61 @@ def emptied_group_cases():
             except gfapy.Error as e:
                 return "%r: the text after rm(g1) cannot be read back (%s): %r" % (groups, type(e).__name__, str(g))
     return True
+
+
+def other_oriented_segment_cases():
+    """other_oriented_segment on links between distinct segments, self links and hairpins, asked about each side, a wrong orientation and a
+    foreign segment, strict and tolerant"""
+    inv = {"+": "-", "-": "+"}
+    for a, oa, b, ob in (("x", "+", "y", "+"), ("x", "-", "y", "+"), ("y", "+", "x", "-"), ("x", "+", "x", "+"), ("x", "+", "x", "-"), ("x", "-", "x", "+")):
+        g = gfapy.Gfa(["S\tx\t*", "S\ty\t*", "S\tz\t*", "L\t%s\t%s\t%s\t%s\t*" % (a, oa, b, ob)], vlevel=1)
+        l = g.dovetails[0]
+        f, t = (l.from_segment.name, l.from_orient), (l.to_segment.name, l.to_orient)
+        for n in ("x", "y", "z"):
+            for o in "+-":
+                want = t if (n, o) == f else (f if (n, o) == t else None)
+                for tolerant in (False, True):
+                    try:
+                        r = l.other_oriented_segment(gfapy.OrientedLine(g.segment(n), o), tolerant)
+                        got = None if r is None else (r.name, r.orient)
+                        if want is None and not tolerant:
+                            return "%s: other_oriented_segment(%s%s) answered %r instead of NotFoundError" % (l, n, o, got)
+                    except gfapy.NotFoundError:
+                        if want is not None or tolerant:
+                            return "%s: other_oriented_segment(%s%s, tolerant=%s) raised NotFoundError" % (l, n, o, tolerant)
+                        continue
+                    if got != want:
+                        return "%s: other_oriented_segment(%s%s) = %r, expected %r" % (l, n, o, got, want)
+    return True
+
+
+def canonicize_cases():
+    """canonicize of unconnected links: the link itself iff from < to, or from == to and one orientation is +; else its complement"""
+    for a in ("x", "y"):
+        for b in ("x", "y"):
+            for oa in "+-":
+                for ob in "+-":
+                    l = gfapy.Line("L\t%s\t%s\t%s\t%s\t2M1I" % (a, oa, b, ob), vlevel=1)
+                    canon = a < b or (a == b and "+" in (oa, ob))
+                    r = l.canonicize()
+                    if canon and r is not l:
+                        return "%s is canonical but canonicize() returned %s" % (l, r)
+                    if not canon and (r is l or str(r) != str(l.complement())):
+                        return "%s is not canonical but canonicize() returned %s" % (l, r)
+    return True
+
+
+def rpos_cases():
+    """rpos of containments: pos + length of the overlap on the reference (M, D, N, =, X count; I, S, H, P do not); `*` refused with ValueError"""
+    for pos in (0, 3):
+        for cg, ln in (("5M", 5), ("2M1I3M", 5), ("2M2D1M", 5), ("1I", 1 - 1), ("3M1P2M", 5)):
+            l = gfapy.Line("C\ta\t+\tb\t-\t%d\t%s" % (pos, cg), vlevel=1)
+            if l.rpos != pos + ln:
+                return "%s: rpos %r, expected %d" % (l, l.rpos, pos + ln)
+        l = gfapy.Line("C\ta\t+\tb\t-\t%d\t*" % pos, vlevel=1)
+        try:
+            r = l.rpos
+            return "%s: rpos %r, expected gfapy.ValueError" % (l, r)
+        except gfapy.ValueError:
+            pass
+    return True
